@@ -62,6 +62,12 @@ type SimCfg struct {
 	// preemption injection (simrt.Config.PreemptEvery / PreemptNs)
 	PreemptEvery int   `json:"preempt_every,omitempty"`
 	PreemptNs    int64 `json:"preempt_ns,omitempty"`
+	// site-directed stalls (simrt.Config.SlowSite*); the salt is the plan seed
+	SlowMod  int   `json:"slow_mod,omitempty"`
+	SlowNs   int64 `json:"slow_ns,omitempty"`
+	SlowCoin int   `json:"slow_coin,omitempty"`
+	// per-operation jitter (simrt.Config.JitterNs)
+	JitterNs int64 `json:"jitter_ns,omitempty"`
 }
 
 // LatencyCfg is the per-run disk latency model (ns).
